@@ -297,7 +297,7 @@ impl IsoDateTime {
 /// These fields are used for the `Temporal.PlainDate` object, the
 /// `Temporal.YearMonth` object, and the `Temporal.MonthDay` object.
 #[non_exhaustive]
-#[derive(Debug, Clone, Copy, Default, PartialEq, Eq, PartialOrd, Ord)]
+#[derive(Debug, Clone, Copy, PartialEq, Eq, PartialOrd, Ord)]
 pub struct IsoDate {
     /// An ISO year within a range -271821..=275760
     pub year: i32,
@@ -305,6 +305,13 @@ pub struct IsoDate {
     pub month: u8,
     /// An ISO day within a valid range of 1..=31
     pub day: u8,
+}
+
+impl Default for IsoDate {
+    /// The default is a valid date, 1970-01-01 (all-zero fields are not a date: month and day count from one).
+    fn default() -> Self {
+        Self::new_unchecked(1970, 1, 1)
+    }
 }
 
 impl IsoDate {
